@@ -431,6 +431,9 @@ func (b *builder) mediaType(mt string) M {
 		if b.chance(3, "formobj") {
 			props["f4"] = M{"type": "object", "properties": M{"x": M{"type": "integer"}}}
 		}
+		if b.cfg.Unusual && b.chance(3, "formany") {
+			props["f5"] = M{"description": "any"} // no type: whatever the part carries
+		}
 		s = M{"type": "object", "properties": props}
 		if b.chance(3, "formreq") {
 			s["required"] = []any{"f1"}
